@@ -122,6 +122,14 @@ def check_variation(ed_name, var, vol, page):
     e = eq3(v, c0)
     if e != (True, True, True):
         res.append(("variation-neq", f"{txt!r} vs {canon!r}: ==,hash,resource = {e}; corrected reporters {v.corrected_reporter()!r} / {c0.corrected_reporter()!r}"))
+    # surrounding text does not matter: the short form of the canonical spelling reads the same on its own and after a
+    # citation that uses the variation spelling (an earlier mention must not change which pattern wins later)
+    short = f"{vol} {ed_name} at {page}"
+    alone = [c for c in get_citations("See " + short + ".") if c.span()[0] == 4]
+    after = [c for c in get_citations(f"7 {var} 9. See " + short + ".") if c.matched_text() == (alone[0].matched_text() if alone else None)]
+    if len(alone) == 1 and isinstance(alone[0], M.CaseCitation):
+        if len(after) != 1 or type(after[0]) is not type(alone[0]) or not (after[0] == alone[0] and hash(after[0]) == hash(alone[0])):
+            res.append(("context-changes-reading", f"{short!r} alone is {type(alone[0]).__name__} {dict(alone[0].groups)}; after '7 {var} 9.' it is {[(type(c).__name__, dict(c.groups)) for c in after]}"))
     vn = v.corrected_citation()
     r = one_case(vn, vn)
     if r is None or eq3(r, v) != (True, True, True):
